@@ -84,7 +84,7 @@ func (svcRT) RoundTrip(req *http.Request) (*http.Response, error) {
 // ---------------------------------------------------------------- reference model of one route's authentication
 
 type authModel struct {
-	kind  string // open | basic | hmac | forward | any (one of alts; none: nothing authenticates)
+	kind  string // open | basic | hmac | forward | any (one of alts; none: nothing authenticates) | absent (the configuration has no such route)
 	users map[string]string
 	hm    *hmacCfg
 	url   string
@@ -117,6 +117,9 @@ func (m authModel) accepts(c *reqCase, now time.Time) bool {
 
 // refusal: the status the statement assigns when the request does not authenticate.
 func (m authModel) refusal(c *reqCase) []int {
+	if m.kind == "absent" {
+		return []int{http.StatusNotFound} // not a route of the configuration: nothing is stored under it
+	}
 	if m.kind == "any" {
 		if len(m.alts) == 0 {
 			// nothing authenticates: the statement's refusals are 401, 403 or 503
@@ -143,6 +146,9 @@ func (m authModel) refusal(c *reqCase) []int {
 func (m authModel) dsl(slot int) string {
 	if m.kind == "hmac" {
 		return m.hm.dsl(slot)
+	}
+	if m.kind == "absent" {
+		return dslHead(slot)
 	}
 	var b strings.Builder
 	b.WriteString(dslHead(slot))
